@@ -375,6 +375,27 @@ class Gen:
         text = self.n5_name_return(text, ret)
         if twin:
             text = re.sub(r'\bfn\s+%s\b' % re.escape(name), 'fn %s__canary' % name, text, count=1)
+        # N8: `fn f(mut self, ..) { B }` -> `fn f(self, ..) { let mut __self = self; B[self := __self] }`
+        # (Verus rejects a `mut self` receiver; moving the receiver into a mutable local is what the binding mode means)
+        if not is_stub:
+            mm, _ = rsx.mask(text)
+            k = re.search(r'\bfn\b', mm).start()
+            bo = rsx.first_open_brace(mm, k)
+            msig = re.search(r'\(\s*mut\s+self\b', mm[k:bo])
+            if msig:
+                sig = text[:bo]
+                sig = sig[:k + msig.start()] + re.sub(r'\(\s*mut\s+self\b', '(self', sig[k + msig.start():], count=1)
+                body = text[bo:]
+                mbody = mm[bo:]
+                out, last = [], 0
+                for m2 in re.finditer(r'\bself\b', mbody):
+                    out.append(body[last:m2.start()])
+                    out.append('__self')
+                    last = m2.end()
+                out.append(body[last:])
+                body = ''.join(out)
+                text = sig + '{ let mut __self = self;' + body[1:]
+                self.norm_counts['N8_mut_self_receiver'] = self.norm_counts.get('N8_mut_self_receiver', 0) + 1
         # N6: name the ghost iterator of a `for` loop where the contract asks for it
         for sec in sections:
             if sec['sec'] == 'loop' and sec.get('opts', {}).get('iter'):
@@ -424,7 +445,7 @@ class Gen:
                 if off is None:
                     raise rsx.LostAnchor('%s: %s has no tail expression' % (rel, qual))
             inserts.append((off, sec))
-        if is_stub and 'unmut' in opts:
+        if is_stub and ('unmut' in opts or re.search(r'\(\s*mut\s+self\b', text)):
             # stubbed signatures only: `mut self` / `mut x: T` binding modes are irrelevant without a body
             text, n = re.subn(r'\(\s*mut\s+self\b', '(self', text, count=1)
             self.norm_counts['N7_stub_mut_binding'] = self.norm_counts.get('N7_stub_mut_binding', 0) + n
